@@ -22,7 +22,7 @@ def reader(cls, tag):
     P("  assigns")
     P("  ensures size <= this->size_ - this->index_ ==> ERR(RET) == 0")
     P("  ensures size > this->size_ - this->index_ ==> ERR(RET) == E_ReadLimitReached")
-    P("job c17_%s_ensure\n  props C17\n  enforce nop::%s::Ensure(unsigned long)\n" % (tag, cls))
+    P("job c17_%s_ensure\n  props C17 C02\n  enforce nop::%s::Ensure(unsigned long)\n" % (tag, cls))
     P("contract nop::%s::Read(unsigned char *)" % cls)
     P("  requires RB_PRE(this) && FRESH(byte)")
     P("  assigns *byte, this->index_")
